@@ -199,6 +199,10 @@ def gen_calls(rng, tier):
                     for _ in range(k))
         api = rng.choice(["send", "send_text", "send_frame"])
         calls.append((api, 1, 1 if api != "send_frame" else rng.choice([0, 1]), s, rng.choice(kinds), i % 7 == 0))
+    # the continuation frames of a text message built from str, as the documentation of send_frame() shows
+    for txt in ("Foo Bar", "grüße", "日本語", "a\U0001F600b", "é", ""):
+        for fin in (0, 1):
+            calls.append(("send_frame", 0, fin, txt, rng.choice(kinds), False))
     # control frames: all legal sizes
     for n in range(0, 126):
         for api, op in (("ping", 9), ("pong", 10), ("send", 9), ("send", 10), ("send_frame", 8)):
